@@ -111,7 +111,7 @@ def drive(tier):
             k, v = call(se.VerifyScript, CScript(sig_), CScript(pk_), tx, idx_new, ())
             out = {"k": "ok", "same": tx.serialize() == before} if k == "ret" else dict(T._err(v), same=tx.serialize() == before)
             R.add("vm.verify", {"sig": b2l(sig_), "pk": b2l(pk_), "flags": [], "tx": gen.tx_json(d), "idx": idx_new, "mutable": True}, out)
-        idx = r.choice([0, len(d["vin"]) - 1, len(d["vin"]), len(d["vin"]) + 3]) if r.random() < 0.3 else 0
+        idx = r.choice([0, len(d["vin"]) - 1, len(d["vin"]), len(d["vin"]) + 3, -1, -len(d["vin"]), -len(d["vin"]) - 1, -7]) if r.random() < 0.3 else 0
         before = tx.serialize()
         ssig, spk = CScript(sig), CScript(pk)
         k, v = call(se.VerifyScript, ssig, spk, tx, idx, c06.flag_objs(fl))
